@@ -493,7 +493,13 @@ class C11(Prop):
             npts = rnd.randint(5, 7)
             edges = [e for e in itertools.combinations(range(npts), 2) if rnd.random() < 0.55]
             cx = _closure([(p,) for p in range(npts)] + edges)
-            lines = build_lines('a', cx, route='faces', rnd=rnd) + ['flag w a', 'check c11 w a']
+            nm_ = {}
+            if i % 2 == 0:
+                # falsy names (0, '', ()) on edges -- and, when there are triangles in the source, on one of them
+                hi_ = [s_ for s_ in cx if len(s_) >= 2]; rnd.shuffle(hi_)
+                for s_, n_ in zip(hi_, [0, '', ()]):
+                    nm_[s_] = n_
+            lines = build_lines('a', cx, names=nm_, route='faces', rnd=rnd) + ['flag w a', 'check c11 w a']
             # grow: add edges to the flag complex, grow, compare with the rebuild
             missing = [e for e in itertools.combinations(range(npts), 2) if e not in edges]
             rnd.shuffle(missing)
